@@ -114,6 +114,8 @@ class Decoder:
     self.last_code = None
     self.dirty = False
     self.overflow = 0
+    self.nond_was_displayed = False   # the non-displayed memory holds text that was on display before the last flip
+    self.eoc_carry = False
     self._stuck = None
     self.words = []          # per word record
     self.events = [(-(10 ** 12), BLANK_SCREEN)]   # (frame from which the screen is on display, screen)
@@ -213,6 +215,8 @@ class Decoder:
     cls = c["cls"]
     if cls == "control":
       self._control(c["name"])
+      if c["name"] == "EOC":
+        rec["swap_carry"] = self.eoc_carry   # a caption displayed before returns on screen with this flip
     elif self.mode == "text":
       pass
     elif cls == "pac":
@@ -264,6 +268,7 @@ class Decoder:
       if self.mode != "roll":
         self._erase(self.disp)
         self._erase(self.nond)
+        self.nond_was_displayed = False
         self.base = 15
         self.row, self.col = 15, 0
         self.pen = ("white", False, False)
@@ -280,8 +285,12 @@ class Decoder:
       self._erase(self.disp)
     elif name == "ENM":
       self._erase(self.nond)
+      self.nond_was_displayed = False
     elif name == "EOC":
+      # memory swap: what was displayed becomes the non-displayed memory (it is NOT erased)
+      self.eoc_carry = self.nond_was_displayed and any(c is not None for r in self.nond for c in r)
       self.disp, self.nond = self.nond, self.disp
+      self.nond_was_displayed = any(c is not None for r in self.nond for c in r)
       self.dirty = True
       self.mode = "pop"
     elif self.mode == "text":
